@@ -46,6 +46,13 @@ def decGroups : List Nat → Bytes
     decGroups rest
   | _ => []
 
+def mapOpt {α β} (f : α → Option β) : List α → Option (List β)
+  | [] => some []
+  | a :: as =>
+    match f a, mapOpt f as with
+    | some b, some bs => some (b :: bs)
+    | _, _ => none
+
 /-- `base64::decode`: whitespace removed, padded with '=' to a multiple of four, every '=' counted
     and replaced by 'A', an invalid character makes Boost throw (caught → empty string), the
     counted number of bytes is erased from the end (more than there are → empty string). -/
@@ -54,7 +61,7 @@ def decode (x : Bytes) : Bytes :=
   let s := s ++ List.replicate ((4 - s.length % 4) % 4) 61
   let pads := s.count 61
   let s := s.map (fun c => if c == 61 then 65 else c)
-  match s.mapM b64Val with
+  match mapOpt b64Val s with
   | none => []
   | some vals =>
     let out := decGroups vals
